@@ -70,6 +70,7 @@ theorem alloc_normal (r : Rb) (len : Nat) (how : r.ow = false) :
     r.alloc len = if r.spaceFree < len + MARGIN then (r, some .eagain) else (allocHdr r, none) := by
   unfold Rb.alloc Rb.allocGen
   rw [if_neg (by simp [how])]
+  rfl
 
 theorem alloc_ow (r : Rb) (len : Nat) (how : r.ow = true) :
     r.alloc len = match r.makeRoom len r.W with
